@@ -163,6 +163,40 @@ fn check_transform(sys: &Sys, tier: Tier) -> CaseOut {
             }
         }
     }
+    // points with huge coordinates (multiples of 2^53) that may cancel in a row: every product and the sum of the
+    // products are exact in f64 for the coefficient alphabet, and a non-zero sum decides the sign on its own
+    if n >= 2 {
+        let big = 9007199254740992.0f64; // 2^53
+        for s0 in [1.0, -1.0] {
+            for s1 in [1.0, -1.0] {
+                let mut x = vec![0.0; n];
+                x[0] = s0 * big;
+                x[1] = s1 * big;
+                out.add("evaluations", 1);
+                let xq: Vec<Q> = x.iter().map(|t| Q::from_f64(*t)).collect();
+                let tol_in = rq.iter().all(|(a, b)| &dot(a, &xq) - b <= Q::from_f64(TAU));
+                match catch(|| p.contains(&Array1::from(x.clone()))) {
+                    Err(m) => v(&mut out, "contains", "panic", format!("contains panicked: {m}"), rec("contains", json!(x))),
+                    Ok(c) if c != tol_in => v(&mut out, "contains", "membership", format!("contains({:?}) = {c}, exact membership {tol_in}", x), rec("contains", json!(x))),
+                    _ => {}
+                }
+            }
+        }
+    }
+    // views of the polytope as operands: a single row intersected with the whole (both share one buffer)
+    if sys.rows.len() >= 2 {
+        for i in 0..sys.rows.len() {
+            out.add("evaluations", 2);
+            match catch(|| (p.row(i).intersection(&p.view()), p.view().intersection(&p.row(i)))) {
+                Err(m) => v(&mut out, "intersection", "panic", format!("intersection of views panicked: {m}"), rec("intersection", json!({"row_view": i}))),
+                Ok((a, b)) => {
+                    if !same_set(n, &rows_of(&a), &rq) || !same_set(n, &rows_of(&b), &rq) {
+                        v(&mut out, "intersection", "views", format!("row({i}) intersected with the whole polytope (as views) is not the polytope"), rec("intersection", json!({"row_view": i})));
+                    }
+                }
+            }
+        }
+    }
     // points with NaN or infinite coordinates. Only the unambiguous verdict is demanded: such a point is not contained
     // when some row is violated whatever the ambiguous terms are taken to be, i.e. a row reads NaN (a NaN coordinate
     // with a non-zero coefficient, or +inf - inf) or +inf, or its finite part alone already exceeds the bias while no
